@@ -61,7 +61,7 @@ Lemma decode_encode n : n < lim255 -> decode (encode n) = inr n.
 Proof.
   intros H. pose proof lim256_255. unfold decode.
   assert (L : (length (encode n) <= 32)%nat).
-  { unfold encode. etransitivity; [apply strip_length|]. fold (bytesk 32 n). rewrite bytesk_length. lia. }
+  { unfold encode. etransitivity; [apply strip_length|]. change (bytes32 n) with (bytesk 32 n). rewrite bytesk_length. lia. }
   destruct (Nat.ltb_spec 32 (length (encode n))); [lia|].
   rewrite num_value_encode by lia.
   destruct (N.ltb_spec n lim255); [reflexivity|lia].
@@ -80,10 +80,9 @@ Proof.
   - cbn [le_decode]. apply bytesk_zero.
   - destruct k as [|k]; [cbn in Hk; lia|]. inversion Hb as [|? ? Hx Hb']; subst.
     rewrite bytesk_S. cbn [le_decode].
-    replace ((x + 256 * le_decode b) mod 256) with x.
-    2:{ rewrite N.add_comm, N.mul_comm, N.mod_add by lia. symmetry. apply N.mod_small. assumption. }
-    replace ((x + 256 * le_decode b) / 256) with (le_decode b).
-    2:{ rewrite N.add_comm, N.mul_comm, N.div_add_l by lia. rewrite (N.div_small x 256) by assumption. lia. }
+    replace (x + 256 * le_decode b) with (x + le_decode b * 256) by lia.
+    rewrite N.mod_add, N.div_add by lia. rewrite N.mod_small, N.div_small by assumption.
+    rewrite N.add_0_l.
     cbn [strip]. rewrite IH by (try assumption; cbn in Hk; lia). reflexivity.
 Qed.
 
@@ -137,22 +136,24 @@ Section Main.
     refines_at cr cx rc i s.
   Proof.
     intros i s Hs Hc Hin Hconst. unfold covered_ops in Hin.
-    repeat (apply in_app_or in Hin; destruct Hin as [Hin|Hin]).
-    - apply numeric_ok; assumption.
-    - apply bitwise_ok; assumption.
-    - apply splice_ok; assumption.
-    - apply size_ok; [assumption|]. cbn [In] in Hin. tauto.
-    - apply stack_simple_ok; assumption.
-    - cbn [In] in Hin. destruct Hin as [Hin|Hin].
-      + apply depth_ok; [assumption|]. symmetry; assumption.
-      + apply pickroll_ok. exact Hin.
-    - apply control_ok; assumption.
-    - apply pushdata_ok; assumption.
-    - apply const_ok; [assumption|]. apply Hconst; assumption.
-    - apply expansion_ok; assumption.
-    - apply crypto_simple_ok; assumption.
-    - apply multisig_ok. cbn [In] in Hin. tauto.
-    - apply introspect_ok; assumption.
+    apply in_app_or in Hin; destruct Hin as [Hin|Hin]; [apply numeric_ok; assumption|].
+    apply in_app_or in Hin; destruct Hin as [Hin|Hin]; [apply bitwise_ok; assumption|].
+    apply in_app_or in Hin; destruct Hin as [Hin|Hin]; [apply splice_ok; assumption|].
+    apply in_app_or in Hin; destruct Hin as [Hin|Hin];
+      [apply size_ok; [assumption|]; cbn [In] in Hin; destruct Hin as [Hin|[]]; symmetry; exact Hin|].
+    apply in_app_or in Hin; destruct Hin as [Hin|Hin]; [apply stack_simple_ok; assumption|].
+    apply in_app_or in Hin; destruct Hin as [Hin|Hin].
+    { cbn [In] in Hin. destruct Hin as [Hin|Hin].
+      - apply depth_ok; [assumption|]. symmetry; assumption.
+      - apply pickroll_ok. exact Hin. }
+    apply in_app_or in Hin; destruct Hin as [Hin|Hin]; [apply control_ok; assumption|].
+    apply in_app_or in Hin; destruct Hin as [Hin|Hin]; [apply pushdata_ok; assumption|].
+    apply in_app_or in Hin; destruct Hin as [Hin|Hin]; [apply const_ok; [assumption|]; apply Hconst; assumption|].
+    apply in_app_or in Hin; destruct Hin as [Hin|Hin]; [apply expansion_ok; assumption|].
+    apply in_app_or in Hin; destruct Hin as [Hin|Hin]; [apply crypto_simple_ok; assumption|].
+    apply in_app_or in Hin; destruct Hin as [Hin|Hin];
+      [apply multisig_ok; cbn [In] in Hin; destruct Hin as [Hin|[]]; symmetry; exact Hin|].
+    apply introspect_ok; assumption.
   Qed.
 
   Theorem step_refines_spec : forall s i, sane s -> ctx_sane cx ->
@@ -189,5 +190,12 @@ Example add_example :
   let cx := {| cx_vmversion := 1; cx_code := []; cx_entryid := []; cx_txversion := None; cx_blockheight := None;
                cx_assetid := None; cx_amount := None; cx_destpos := None; cx_spentoutputid := None;
                cx_txsighash := None; cx_checkoutput := None |} in
-  outcome (step cr cx (fun c => (true, c)) s) = inr ([[7%N]], [], 1%N, 106, [147%N], true).
-Proof. vm_compute. reflexivity. Qed.
+  outcome (step cr cx (fun c => (true, c)) s) = inr ([[7%N]], [], 1%N, 107, [147%N], true)
+  /\ sane s /\ ctx_sane cx /\ In 147%N covered_ops
+  /\ enough_gas cr cx (fun c => (true, c)) {| i_op := 147; i_len := 1; i_data := [] |} s.
+Proof.
+  cbv zeta. split; [vm_compute; reflexivity|]. split.
+  { split; [vm_compute; reflexivity|]. repeat constructor. }
+  split; [repeat split|]. split; [vm_compute; tauto|].
+  unfold enough_gas. vm_compute. discriminate.
+Qed.
